@@ -104,8 +104,11 @@ func hook(point, ctx string) {
 	switch point {
 	case "tasks.handler.popped":
 		r.rec("popped", ctx, "")
-	case "tasks.run.checked":
+	case "tasks.run.admitted":
+		// called with the task lock held: the order of this event and of a Cancel return is the real order of the
+		// admission decision and the cancel (recording after the unlock could be overtaken by a Cancel that came later)
 		r.rec("checked", ctx, "")
+		return
 	case "tasks.exec.returned":
 		r.rec("returned", ctx, "")
 	}
